@@ -10,7 +10,7 @@ import (
 
 func init() {
 	register(&Property{
-		ID: "C01",
+		ID:          "C01",
 		Explanation: "Decides one clause of C01 that is a shape of the code: 'with the ASCII charset every non-ASCII character of an identifier, string or template is escaped'. R1 ascii-sink: every text that reaches the JS printer's output buffer (p.print / p.printBytes / appends to p.js) is a compile-time constant, comes from an ASCII-by-construction source (operator table, keyword tables, number formatting, lexer-validated digits), is printed under a dominating `!ASCIIOnly` test, goes through one of the escapers, or is one of the documented exceptions (regular-expression bodies, comments, preserved JSX) — anything else is a violation; R2 inside the escapers, UTF-8 encoding of a rune is reachable only through an edge on which ASCIIOnly is false or the rune is known to be ASCII. R3 escape-denotation decides two structural parts of 'every string literal denotes the same value': each constant escape sequence appended in `case K:` of the string escapers (js_printer printUnquotedUTF16, helpers internalQuote) denotes K under the ECMAScript escape grammar, and on the SSA control-flow graph of the NUL case the short form \\0 is unreachable whenever a next code unit exists and is one of '0'..'9' (\\0 followed by a digit is a legacy octal escape). The tagged-template raw text (ETemplate.HeadRaw / TemplatePart.TailRaw) is printed verbatim and is a known finding. R5 indirect-call-target: the bare print of a call target / template tag is reachable only across the originally-a-property-access edge or the not-a-property-access edge (plain calls, optional calls, tagged templates). R6 operator-gluing-unconditional: no condition of printSpaceBeforeOperator, and no condition of the space printed between a preceding `/` and a regular-expression literal, depends on an output option. R7 line-terminator-set-complete: every store of true to Lexer.HasNewlineBefore is entered from tests for LF, CR, U+2028 and U+2029, and every case clause of js_lexer listing CR and LF lists the other two. NOT covered: everything else in C01 — observable equivalence, parenthesisation, ASI hazards, number and string value round trips.",
 		Run: func(p *Prog, tier string) []*RuleResult {
 			return []*RuleResult{c01AsciiSink(p), c01EscaperBodies(p), c01EscapeDenotation(p), c01LiteralEquality(p), c01IndirectTarget(p), c01OperatorHazardsUnconditional(p), c01LineTerminators(p)}
@@ -20,28 +20,28 @@ func init() {
 
 // sink classification table: "<func> <arg expr>" -> class and reason
 var c01SinkTable = map[string][2]string{
-	"js_printer.(*binaryExprVisitor).visitRightAndFinish js_ast.OpTableEntry.Text": {"ascii", "js_ast.OpTable[op].Text: operator spelling from a constant ASCII table"},
-	"js_printer.(*printer).printExpr js_ast.OpTableEntry.Text":                      {"ascii", "js_ast.OpTable[op].Text: operator spelling from a constant ASCII table"},
-	"js_printer.(*printer).printDecls keyword":                                      {"ascii", "every caller passes a constant keyword (var/let/const/using/await using); checked below"},
+	"js_printer.(*binaryExprVisitor).visitRightAndFinish js_ast.OpTableEntry.Text":                                      {"ascii", "js_ast.OpTable[op].Text: operator spelling from a constant ASCII table"},
+	"js_printer.(*printer).printExpr js_ast.OpTableEntry.Text":                                                          {"ascii", "js_ast.OpTable[op].Text: operator spelling from a constant ASCII table"},
+	"js_printer.(*printer).printDecls keyword":                                                                          {"ascii", "every caller passes a constant keyword (var/let/const/using/await using); checked below"},
 	"js_printer.(*printer).printImportCallAssertOrWith ast.AssertOrWithKeyword).String(ast.ImportAssertOrWith.Keyword)": {"ascii", "keyword table: assert / with"},
-	"js_printer.(*printer).printPath ast.AssertOrWithKeyword).String(ast.ImportAssertOrWith.Keyword)":                  {"ascii", "keyword table: assert / with"},
-	"js_printer.(*printer).printNonNegativeFloat js_printer.printer).smallIntToBytes(p, int(int64(absValue)))": {"ascii", "decimal digits of an integer"},
-	"js_printer.(*printer).printNonNegativeFloat phi":                               {"ascii", "output of strconv.FormatFloat / hex formatting, possibly shortened: digits, '.', 'e', '+', '-', 'x'"},
-	"js_printer.(*printer).printExpr js_ast.EBigInt.Value":                          {"ascii", "bigint digits validated by the lexer ([0-9a-fA-FxXoObB_])"},
-	"js_printer.(*printer).printExpr phi":                                           {"ascii", "bigint digits (possibly with the sign folded in) printed inside BigInt(\"…\") / as a literal"},
-	"js_printer.(*printer).printExpr js_ast.ERegExp.Value":                          {"regexp", "documented exception: regular-expression literals keep their source text"},
-	"js_printer.(*printer).printExpr js_ast.EInlinedEnum.Comment":                   {"comment", "inside /* … */ (documented exception: comments)"},
-	"js_printer.(*printer).printExpr js_ast.EDot.Name":                              {"comment", "property name echoed inside a /* … */ comment next to an inlined enum value (documented exception: comments); the property access itself goes through printIdentifier/printQuotedUTF16"},
-	"js_printer.(*printer).printExpr js_printer.printer).tryToGetImportedEnumValueUTF16(p, .Target, .Value)#1": {"comment", "enum member name echoed inside a /* … */ comment (documented exception: comments)"},
-	"js_printer.(*printer).printExpr js_ast.EJSXText.Raw":                           {"jsx", "preserved JSX text (documented exception: JSX syntax has no escapes)"},
-	"js_printer.(*printer).printExpr helpers.UTF16ToString(js_ast.EString.Value)":  {"jsx", "string-valued JSX attribute name in preserved JSX, inside the EJSXElement case (documented exception)"},
-	"js_printer.(*printer).printJSXTag helpers.UTF16ToString(js_ast.EString.Value)": {"jsx", "preserved JSX tag name (documented exception)"},
-	"js_printer.(*printer).printJSXTag renamer.Renamer).NameForSymbol(js_ast.EIdentifier.Ref)": {"jsx", "preserved JSX tag identifier (documented exception: JSX tags cannot use escapes)"},
-	"js_printer.(*printer).printJSXTag js_ast.EDot.Name":                            {"jsx", "preserved JSX member tag (documented exception)"},
-	"js_printer.(*printer).printExprCommentsAtLoc <*ssa.Slice>":                     {"comment", "comment text (documented exception)"},
-	"js_printer.(*printer).printExprCommentsAtLoc strings.Join(strings.Split(*<*ssa.IndexAddr>, \"\\n\"), \"\")": {"comment", "comment text (documented exception)"},
-	"js_printer.(*printer).printIndentedComment phi":                                {"comment", "comment text (documented exception)"},
-	"js_printer.(*printer).printIndentedComment <*ssa.Slice>":                       {"comment", "comment text (documented exception)"},
+	"js_printer.(*printer).printPath ast.AssertOrWithKeyword).String(ast.ImportAssertOrWith.Keyword)":                   {"ascii", "keyword table: assert / with"},
+	"js_printer.(*printer).printNonNegativeFloat js_printer.printer).smallIntToBytes(p, int(int64(absValue)))":          {"ascii", "decimal digits of an integer"},
+	"js_printer.(*printer).printNonNegativeFloat phi":                                                                   {"ascii", "output of strconv.FormatFloat / hex formatting, possibly shortened: digits, '.', 'e', '+', '-', 'x'"},
+	"js_printer.(*printer).printExpr js_ast.EBigInt.Value":                                                              {"ascii", "bigint digits validated by the lexer ([0-9a-fA-FxXoObB_])"},
+	"js_printer.(*printer).printExpr phi":                                                                               {"ascii", "bigint digits (possibly with the sign folded in) printed inside BigInt(\"…\") / as a literal"},
+	"js_printer.(*printer).printExpr js_ast.ERegExp.Value":                                                              {"regexp", "documented exception: regular-expression literals keep their source text"},
+	"js_printer.(*printer).printExpr js_ast.EInlinedEnum.Comment":                                                       {"comment", "inside /* … */ (documented exception: comments)"},
+	"js_printer.(*printer).printExpr js_ast.EDot.Name":                                                                  {"comment", "property name echoed inside a /* … */ comment next to an inlined enum value (documented exception: comments); the property access itself goes through printIdentifier/printQuotedUTF16"},
+	"js_printer.(*printer).printExpr js_printer.printer).tryToGetImportedEnumValueUTF16(p, .Target, .Value)#1":          {"comment", "enum member name echoed inside a /* … */ comment (documented exception: comments)"},
+	"js_printer.(*printer).printExpr js_ast.EJSXText.Raw":                                                               {"jsx", "preserved JSX text (documented exception: JSX syntax has no escapes)"},
+	"js_printer.(*printer).printExpr helpers.UTF16ToString(js_ast.EString.Value)":                                       {"jsx", "string-valued JSX attribute name in preserved JSX, inside the EJSXElement case (documented exception)"},
+	"js_printer.(*printer).printJSXTag helpers.UTF16ToString(js_ast.EString.Value)":                                     {"jsx", "preserved JSX tag name (documented exception)"},
+	"js_printer.(*printer).printJSXTag renamer.Renamer).NameForSymbol(js_ast.EIdentifier.Ref)":                          {"jsx", "preserved JSX tag identifier (documented exception: JSX tags cannot use escapes)"},
+	"js_printer.(*printer).printJSXTag js_ast.EDot.Name":                                                                {"jsx", "preserved JSX member tag (documented exception)"},
+	"js_printer.(*printer).printExprCommentsAtLoc <*ssa.Slice>":                                                         {"comment", "comment text (documented exception)"},
+	"js_printer.(*printer).printExprCommentsAtLoc strings.Join(strings.Split(*<*ssa.IndexAddr>, \"\\n\"), \"\")":        {"comment", "comment text (documented exception)"},
+	"js_printer.(*printer).printIndentedComment phi":                                                                    {"comment", "comment text (documented exception)"},
+	"js_printer.(*printer).printIndentedComment <*ssa.Slice>":                                                           {"comment", "comment text (documented exception)"},
 }
 
 // sinkDesc names the source of a printed value: owner type and field for loaded fields (through
